@@ -43,6 +43,17 @@ class F:
                     for t in st.targets:
                         if isinstance(t, ast.Name):
                             d[t.id] = st.value if len(st.targets) == 1 else None
+                            if len(st.targets) == 2:
+                                # `a = b[k] = <value>`: a names the very object stored at b[k]
+                                o = st.targets[1] if st.targets[0] is t else st.targets[0]
+                                if isinstance(o, (ast.Attribute, ast.Subscript)) and not any(isinstance(x_, ast.Call) for x_ in ast.walk(o)):
+                                    class _L(ast.NodeTransformer):
+                                        def generic_visit(self, node):
+                                            super().generic_visit(node)
+                                            if hasattr(node, "ctx"):
+                                                node.ctx = ast.Load()
+                                            return node
+                                    d[t.id] = _L().visit(copy.deepcopy(o))
                         elif isinstance(t, ast.Tuple) and isinstance(st.value, ast.Tuple) and len(t.elts) == len(st.value.elts) and len(st.targets) == 1 and all(isinstance(x_, ast.Name) for x_ in t.elts):
                             # `a, b = (x, y)`: element-wise definitions (when no right side reads a left name)
                             lhs = {x_.id for x_ in t.elts}
@@ -805,6 +816,55 @@ class F:
                 return None
             return out
         return None
+
+    def set_build(self, value: ast.AST):
+        """Recognise a set as {x in SRC | COND(x)}: a set comprehension over the items / elements of SRC, possibly
+        intersected with the key set of a mapping M (`set(M.keys()).intersection(S)`, `S & set(M)`), which adds the
+        conjunct `x in M`.  Returns {src, kept (condition AST over V0[, V1])} or None."""
+        v = self.xe(value) if isinstance(value, ast.Name) else value
+
+        def comp(e):
+            e = self.xe(e) if isinstance(e, ast.Name) else e
+            if isinstance(e, ast.SetComp) and len(e.generators) == 1:
+                gen = e.generators[0]
+                names = [x.id for x in (gen.target.elts if isinstance(gen.target, ast.Tuple) else [gen.target]) if isinstance(x, ast.Name)]
+                if not names or norm(e.elt) != names[0]:
+                    return None
+                ren = {n_: f"V{i}" for i, n_ in enumerate(names)}
+
+                class R(ast.NodeTransformer):
+                    def visit_Name(self, node):
+                        return ast.copy_location(ast.Name(id=ren.get(node.id, node.id), ctx=node.ctx), node)
+
+                conds = [R().visit(copy.deepcopy(self.xe(c))) for i in gen.ifs for c in M.conjuncts(i)]
+                return self.x(gen.iter), conds
+            return None
+
+        def keyset(e):
+            e = M.canon_collections(self.xe(e))
+            return norm(e) if isinstance(e, (ast.Name, ast.Attribute, ast.Call, ast.Subscript)) else None
+
+        sides = None
+        if isinstance(v, ast.Call) and isinstance(v.func, ast.Attribute) and v.func.attr == "intersection" and len(v.args) == 1:
+            sides = (v.func.value, v.args[0])
+        elif isinstance(v, ast.BinOp) and isinstance(v.op, ast.BitAnd):
+            sides = (v.left, v.right)
+        if sides is not None:
+            for a_, b_ in (sides, sides[::-1]):
+                c = comp(a_)
+                ks = keyset(b_)
+                if c is not None and ks is not None and comp(b_) is None:
+                    src, conds = c
+                    conds = conds + [M.pat(f"V0 in {ks}")]
+                    return {"src": src, "kept": ast.BoolOp(op=ast.And(), values=conds) if len(conds) > 1 else conds[0]}
+            return None
+        c = comp(v)
+        if c is None:
+            return None
+        src, conds = c
+        conds = [M.canon_collections(x) for x in conds]
+        kept = ast.BoolOp(op=ast.And(), values=conds) if len(conds) > 1 else conds[0] if conds else ast.Constant(value=True)
+        return {"src": src, "kept": kept}
 
     def list_filter(self, value: ast.AST):
         """Recognise `value` as an order-preserving filtered copy of a sequence: `[x for x in SRC if COND]` or a name built by
